@@ -188,7 +188,8 @@ class CorrFunc(
         write_version_tag(dest)
 
         names = ("data_data", "data_random", "random_data", "random_random")
-        for name, count in zip(names, self.to_dict().values()):
+        for name, kind in zip(names, self.__slots__):
+            count = getattr(self, kind)
             if count is not None:
                 group = dest.create_group(name)
                 count.to_hdf(group)
